@@ -41,6 +41,8 @@ r"""Cherenkov photon density and angle determination class.
 
 """
 
+import os
+
 import dask.bag as db
 import numpy as np
 from dask.diagnostics import ProgressBar
@@ -70,6 +72,12 @@ class CphotAng:
         self.detector_altitude = detector_altitude
         self.dtype = np.float32
         """numerical data type"""
+        if (
+            os.environ.get("NUSPACESIM_VERIF") == "1"
+            and os.environ.get("NUSPACESIM_VERIF_DTYPE") == "float64"
+        ):
+            # verification hook: run the unchanged kernel in double precision
+            self.dtype = np.float64
 
         self.wave1 = np.array(
             [
